@@ -986,6 +986,10 @@ def batch_norm(x:Tensor, weight:Tensor=None, bias:Tensor=None, running_mean:Tens
     if bias is not None and not isinstance(bias, Tensor):
         raise TypeError(f"Expected bias to be a Tensor but got {type(bias)}")
     
+    if not training and (running_mean is None) != (running_var is None):
+        # backward knows two cases only: batch statistics or running statistics, not one of each
+        raise ValueError("Expected running_mean and running_var to be given together when training=False")
+    
     running_mean_data = running_mean.data if running_mean is not None else None
     running_var_data = running_var.data if running_var is not None else None
     weight_data = weight.data if weight is not None else None
